@@ -538,8 +538,9 @@ def rule_r5(repo, run):
         f = [fn for fn in m.functions().values() if any(n is node for n in ast.walk(fn))][0]
         tests = " and ".join(m.seg(t) for t, p in pyflow.dominating_tests(node, stop=f) if p)
         t = _norm(tests)
-        need = ["options.F_CFIisFalse", "intent=='in'", "is_ptr==1", "arg_typemap.name=='char'"]
-        missing = [x for x in need if x not in t]
+        need = [("options.F_CFIisFalse", "notoptions.F_CFI", "options.F_CFI==False"), ("intent=='in'",), ("is_ptr==1",),
+                ("arg_typemap.name=='char'",)]
+        missing = [alts[0] for alts in need if not any(x in t for x in alts)]
         run.check(R, "generate.VerifyAttrs.check_arg_attrs:ftrim-guard", not missing,
                   "the Fortran-side trim applies to intent(in) single-indirection char without F_CFI only; "
                   "guard lacks %s" % missing, m.loc(node), sample=dict(guard=tests))
